@@ -212,11 +212,20 @@ struct Impl {
     for (int i = 0; i < n; i++) d.m_data[off + i] = raw[i];
     os.str("");
     os.clear();
-    // pristine formatting state (as a freshly constructed stream; cheaper than copyfmt)
-    os.flags(std::ios::dec | std::ios::skipws);
-    os.precision(6);
+    // "not on other fields formatted before on the same output": the stream is handed over in the state other fields
+    // leave it in - fixed notation with two fraction digits (a fixed-point field) and hex base with fill '0' (a HEX
+    // field), in turn with a pristine stream - so that a decoder which relies on the stream's state shows a wrong text
+    // here (C12 explores which states are reachable and compares every type against its pristine output)
+    if ((calls & 1) == 0) {
+      os.flags(std::ios::dec | std::ios::skipws);
+      os.precision(6);
+      os.fill(' ');
+    } else {
+      os.flags(std::ios::hex | std::ios::fixed | std::ios::skipws);
+      os.precision(2);
+      os.fill('0');
+    }
     os.width(0);
-    os.fill(' ');
     calls++;
     result_t r = c.field->read(d, 0, false, nullptr, -1, fmtFlags(fmt), -1, &os);
     *out = os.str();
